@@ -12,7 +12,7 @@ pub fn def() -> PropertyDef {
     PropertyDef {
         id: "C19",
         level: "fault_enumeration",
-        rule: "valid single-revision classic files without object streams (synthesized with 3–40 objects of mixed kinds incl. plain and Flate streams, or authored by the library with 1–3 text pages, compression on/off) × one or two damage operations from the catalogue {shift all offsets ±k, corrupt one entry, swap two entries, truncate the table, delete the table, delete startxref, point startxref at 0 / EOF / mid-object, wrong /Size, delete the trailer keyword, prepend junk}; the quick tier additionally enumerates EVERY single catalogue operation on a fixed set of base files (sub `catalogue`). Oracle: intact file read by the strict preset vs damaged file read with recovery (tolerant, skip_errors; default = value-or-error): same catalog, page count and the same value for every object. Non-trivial: the strict preset fails on the damaged file (recovery really had to run); distinct by hash of (file spec, damage).",
+        rule: "valid single-revision classic files without object streams (synthesized with 3–40 objects of mixed kinds incl. plain and Flate streams, or authored by the library with 1–3 text pages, compression on/off) × one or two damage operations from the catalogue {shift all offsets ±k, corrupt one entry, swap two entries, truncate the table, delete the table, delete startxref, point startxref at 0 / EOF / mid-object, wrong /Size, delete the trailer keyword, prepend junk}; the quick tier additionally enumerates EVERY single catalogue operation on a fixed set of base files (sub `catalogue`). Oracle: intact file read by the strict preset vs damaged file read with recovery (tolerant, skip_errors; ParseOptions::default() is the strict configuration and is only observed): same catalog, page count and the same value for every object. Non-trivial: the strict preset fails on the damaged file (recovery really had to run); distinct by hash of (file spec, damage).",
         assumptions: &[
             "recovery-enabled presets: tolerant/lenient and skip_errors must open the damaged file; the default preset may refuse it but may not return different values",
             "streams whose data contain text that looks like an object header form a separately labelled class (decoy)",
@@ -52,12 +52,39 @@ pub enum Damage {
     WrongSize(i32),
     DeleteTrailerKeyword,
     PrependJunk(u8),
+    /// one in-use entry overwritten with bytes that are not an entry at all (kind 0: letters, 1: blanks, 2: punctuation)
+    GarbleEntry { sel: u16, kind: u8 },
 }
 
 #[derive(Clone, Debug, Serialize, Deserialize)]
 pub struct Case {
     pub source: Source,
     pub damage: Vec<Damage>,
+    /// synthesized sources only: every end-of-line outside stream data is a lone CARRIAGE RETURN (ISO 32000-1 7.2.3;
+    /// byte offsets are unchanged, the LINE FEED after the `stream` keyword stays as 7.3.8.1 requires)
+    #[serde(default)]
+    pub cr_eol: bool,
+}
+
+fn to_cr(b: &[u8]) -> Vec<u8> {
+    let mut out = b.to_vec();
+    let mut i = 0;
+    while i < out.len() {
+        if out[i..].starts_with(b"\nstream\n") {
+            out[i] = b'\r';
+            let from = i + 8;
+            match out[from..].windows(10).position(|w| w == b"\nendstream") {
+                Some(rel) => i = from + rel,
+                None => break,
+            }
+            continue;
+        }
+        if out[i] == b'\n' {
+            out[i] = b'\r';
+        }
+        i += 1;
+    }
+    out
 }
 
 fn build(src: &Source) -> Result<Vec<u8>, String> {
@@ -212,6 +239,7 @@ fn label_of(d: &Damage) -> &'static str {
         Damage::WrongSize(_) => "wrong-size",
         Damage::DeleteTrailerKeyword => "delete-trailer-keyword",
         Damage::PrependJunk(_) => "prepend-junk",
+        Damage::GarbleEntry { .. } => "garble-entry",
     }
 }
 
@@ -239,6 +267,19 @@ fn apply(bytes: &mut Vec<u8>, d: &Damage, lay: &Layout) -> bool {
             let cur: u32 = std::str::from_utf8(&bytes[p..p + 10]).unwrap().parse().unwrap();
             let nv = if *to == cur { to + 1 } else { *to };
             bytes[p..p + 10].copy_from_slice(format!("{nv:010}").as_bytes());
+            true
+        }
+        Damage::GarbleEntry { sel, kind } => {
+            if inuse.is_empty() {
+                return false;
+            }
+            let p = inuse[pick_idx(*sel, inuse.len())];
+            let g: &[u8; 18] = match kind % 3 {
+                0 => b"XXXXXXXXXX XXXXX n",
+                1 => b"                  ",
+                _ => b"##########-#####-n",
+            };
+            bytes[p..p + 18].copy_from_slice(g);
             true
         }
         Damage::SwapTwo { a, b } => {
@@ -337,13 +378,16 @@ fn snapshot(bytes: &[u8], opts: ParseOptions, nums: &[u32]) -> Result<Snapshot, 
 
 pub fn check(c: &Case) -> Outcome {
     let mut o = Outcome::new();
+    let cr = c.cr_eol && matches!(c.source, Source::Synth { .. });
     let intact = match build(&c.source) {
+        Ok(b) if cr => to_cr(&b),
         Ok(b) => b,
         Err(e) => {
             o.fail("C19/source-builds", "authoring-error", e);
             return o;
         }
     };
+    o.label_if(cr, "eol=CR");
     let lay = match layout(&intact) {
         Ok(l) => l,
         Err(e) => {
@@ -377,6 +421,7 @@ pub fn check(c: &Case) -> Outcome {
     o.label_if(full.strict_fails, "recovery-needed");
     o.label(format!("damages={}", full.applied.len()));
     o.label_if(full.default_refuses, "default-refuses");
+    o.label_if(full.default_differs, "default-preset-returns-different-values(not-judged)");
     if full.fails.is_empty() {
         return o;
     }
@@ -409,11 +454,12 @@ struct Assessment {
     applied: Vec<&'static str>,
     strict_fails: bool,
     default_refuses: bool,
+    default_differs: bool,
     fails: Vec<(&'static str, String)>,
 }
 
 fn assess(intact: &[u8], base: &Snapshot, nums: &[u32], damages: &[Damage]) -> Assessment {
-    let mut a = Assessment { applied: vec![], strict_fails: false, default_refuses: false, fails: vec![] };
+    let mut a = Assessment { applied: vec![], strict_fails: false, default_refuses: false, default_differs: false, fails: vec![] };
     let mut damaged = intact.to_vec();
     let Ok(mut cur_lay) = layout(intact) else { return a };
     for d in damages {
@@ -450,7 +496,13 @@ fn assess(intact: &[u8], base: &Snapshot, nums: &[u32], damages: &[Damage]) -> A
                     diff = Some(format!("object {}: intact {:?} vs recovered {:?}", x.0, x.1, y.1));
                 }
                 if let Some(d) = diff {
-                    a.fails.push(("C19/recovered-equals-intact", format!("preset {pname}: {d}")));
+                    // the property speaks about opening "with recovery enabled": ParseOptions::default() is the strict
+                    // configuration (strict_mode, no stream recovery), so what it returns is observed but not judged
+                    if must_open {
+                        a.fails.push(("C19/recovered-equals-intact", format!("preset {pname}: {d}")));
+                    } else {
+                        a.default_differs = true;
+                    }
                 }
             }
         }
@@ -480,6 +532,7 @@ fn damage() -> impl Strategy<Value = Damage> {
         (0u8..4).prop_map(Damage::StartxrefTo),
         (-5i32..50).prop_map(Damage::WrongSize),
         Just(Damage::DeleteTrailerKeyword),
+        (any::<u16>(), 0u8..3).prop_map(|(sel, kind)| Damage::GarbleEntry { sel, kind }),
     ]
 }
 
@@ -496,7 +549,7 @@ fn source() -> impl Strategy<Value = Source> {
 }
 
 fn strategy() -> impl Strategy<Value = Case> {
-    (source(), prop::collection::vec(damage(), 1..3)).prop_map(|(source, damage)| Case { source, damage })
+    (source(), prop::collection::vec(damage(), 1..3), prop::bool::weighted(0.2)).prop_map(|(source, damage, cr_eol)| Case { source, damage, cr_eol })
 }
 
 /// Fixed base files × every single catalogue operation (complete enumeration of the catalogue).
@@ -528,13 +581,21 @@ fn catalogue_cases() -> Vec<Case> {
     for d in [-3, -1, 1, 40] {
         ops.push(Damage::WrongSize(d));
     }
+    for sel in [0u16, 20000, 40000, 65535] {
+        for kind in 0..3 {
+            ops.push(Damage::GarbleEntry { sel, kind });
+        }
+    }
     for n in [0u8, 7, 39] {
         let _ = n; // prepending junk is not damage to the cross-reference data: outside the property
     }
     let mut v = Vec::new();
     for b in &bases {
         for op in &ops {
-            v.push(Case { source: b.clone(), damage: vec![op.clone()] });
+            v.push(Case { source: b.clone(), damage: vec![op.clone()], cr_eol: false });
+            if matches!(b, Source::Synth { .. }) {
+                v.push(Case { source: b.clone(), damage: vec![op.clone()], cr_eol: true });
+            }
         }
     }
     v
@@ -556,7 +617,7 @@ fn run(ctx: &Ctx) {
             }
         }
     }
-    ctx.run_sub("generated", ctx.tier.pick(2_500, 50_000), strategy, check);
+    ctx.run_sub("generated", ctx.tier.pick(10_000, 100_000), strategy, check);
 }
 
 fn replay(ctx: &Ctx, sub: &str, case: &Value) -> Result<Outcome, String> {
